@@ -61,3 +61,4 @@ example : Interp.callHelper { prog := #[], helpers := fun _ => none, allowed := 
   C08_unknown_helper_interp _ _ _ rfl
 
 end Rbpf
+
